@@ -1,3 +1,202 @@
-// unit box_hash: harnesses for sdk/src/assertions/box_hash.rs (included by the cfg(kani) hook at the end of that file)
+// unit box_hash: sdk/src/assertions/box_hash.rs (included by the cfg(kani) hook at the end of that file)
+// C01 (box-hash binding) / C12 (format-independent half): BoxHash::verify_stream_hash_with_progress returns Ok only if
+//   every source box (from the handler's box map) is matched, in order, by a name of the signed assertion,
+//   every signed entry that is neither the C2PA box nor declared `excluded` hash-compares equal to the digest of the
+//   span from its first to its last matched box, and no source box is left over.
 #[allow(unused_imports)]
 use super::*;
+
+struct FixedMap(Vec<(String, u64, u64)>);
+impl AssetBoxHash for FixedMap {
+    fn get_box_map(&self, _r: &mut dyn CAIRead) -> Result<Vec<BoxMap>> {
+        Ok(self
+            .0
+            .iter()
+            .map(|(n, s, l)| BoxMap { names: vec![n.clone()], alg: None, hash: ByteBuf::from(Vec::new()), excluded: None, pad: ByteBuf::from(Vec::new()), range_start: *s, range_len: *l })
+            .collect())
+    }
+}
+
+fn entry(names: &[&str], hash: Vec<u8>, excluded: Option<bool>) -> BoxMap {
+    BoxMap { names: names.iter().map(|s| s.to_string()).collect(), alg: Some("sha256".to_string()), hash: ByteBuf::from(hash), excluded, pad: ByteBuf::from(Vec::new()), range_start: 0, range_len: 0 }
+}
+
+// the specification (statement + the documented PNGh legacy rule), executable
+fn oracle(signed: &[BoxMap], source: &[(String, u64, u64)], data: &[u8]) -> bool {
+    if signed.is_empty() || source.is_empty() {
+        return false;
+    }
+    let mut si = 0usize;
+    if source[0].0 == "PNGh" && signed[0].names.first().is_some_and(|n| n != "PNGh") {
+        si = 1;
+    }
+    for bm in signed {
+        let first = si;
+        for name in &bm.names {
+            if si >= source.len() || &source[si].0 != name {
+                return false;
+            }
+            si += 1;
+        }
+        let is_c2pa = bm.names.first().is_some_and(|n| n == C2PA_BOXHASH);
+        if is_c2pa && bm.names.len() != 1 {
+            return false;
+        }
+        if is_c2pa || bm.excluded.unwrap_or(false) {
+            continue;
+        }
+        if bm.names.is_empty() {
+            return false;
+        }
+        let a = source[first].1 as usize;
+        let b = (source[si - 1].1 + source[si - 1].2) as usize;
+        if b > data.len() || bm.hash.to_vec() != hash_by_alg("sha256", &data[a..b], None) {
+            return false;
+        }
+    }
+    si == source.len() // every source box is covered by the signed assertion
+}
+
+fn honest(source: &[(String, u64, u64)], data: &[u8], grouping: &[usize]) -> Vec<BoxMap> {
+    let mut out = Vec::new();
+    let mut i = 0usize;
+    for &g in grouping {
+        if i >= source.len() {
+            break;
+        }
+        let mut j = (i + g).min(source.len());
+        // the C2PA box is always alone
+        if source[i].0 == C2PA_BOXHASH {
+            j = i + 1;
+        } else if let Some(p) = (i..j).find(|k| source[*k].0 == C2PA_BOXHASH) {
+            j = p;
+        }
+        let names: Vec<&str> = source[i..j].iter().map(|s| s.0.as_str()).collect();
+        let a = source[i].1 as usize;
+        let b = (source[j - 1].1 + source[j - 1].2) as usize;
+        out.push(entry(&names, hash_by_alg("sha256", &data[a..b], None), None));
+        i = j;
+    }
+    out
+}
+
+#[test]
+fn c01_box_hash_verify_matches_oracle() {
+    let data: Vec<u8> = (0u8..16).map(|i| i.wrapping_mul(29).wrapping_add(3)).collect();
+    let names = ["A", "B", "C2PA", "PNGh"];
+    let mut evals = 0usize;
+    let mut nontrivial = 0usize;
+    let mut counts: std::collections::BTreeMap<String, usize> = std::collections::BTreeMap::new();
+    // source layouts: 1..=4 boxes, each 2 bytes, optional 1-byte gap before the second box, optional trailing bytes
+    let mut layouts: Vec<Vec<(String, u64, u64)>> = Vec::new();
+    for n in 1..=4usize {
+        let combos = names.len().pow(n as u32);
+        for c in 0..combos {
+            let mut idx = c;
+            let mut seq = Vec::new();
+            for _ in 0..n {
+                seq.push(names[idx % names.len()]);
+                idx /= names.len();
+            }
+            if seq.iter().filter(|s| **s == "C2PA").count() > 1 || seq.iter().skip(1).any(|s| *s == "PNGh") {
+                continue;
+            }
+            for gap in [0u64, 1] {
+                let mut pos = 0u64;
+                let mut v = Vec::new();
+                for (k, s) in seq.iter().enumerate() {
+                    if k == 1 {
+                        pos += gap;
+                    }
+                    v.push((s.to_string(), pos, 2u64));
+                    pos += 2;
+                }
+                layouts.push(v);
+            }
+        }
+    }
+    for source in &layouts {
+        for grouping in [vec![1usize, 1, 1, 1], vec![2, 2], vec![1, 2, 1], vec![3, 1], vec![4]] {
+            let base = honest(source, &data, &grouping);
+            // mutations of the signed assertion (index 0 = unchanged)
+            let mut variants: Vec<Vec<BoxMap>> = Vec::new();
+            let clone = |v: &Vec<BoxMap>| -> Vec<BoxMap> { v.iter().map(|b| BoxMap { names: b.names.clone(), alg: b.alg.clone(), hash: b.hash.clone(), excluded: b.excluded, pad: b.pad.clone(), range_start: 0, range_len: 0 }).collect() };
+            variants.push(clone(&base));
+            for k in 0..base.len() {
+                let mut v = clone(&base);
+                v.remove(k); // a signed entry dropped: its source boxes are no longer covered
+                variants.push(v);
+                let mut v = clone(&base);
+                let mut h = v[k].hash.to_vec();
+                if !h.is_empty() {
+                    h[0] ^= 1;
+                }
+                v[k].hash = ByteBuf::from(h); // wrong digest
+                variants.push(v);
+                let mut v = clone(&base);
+                v[k].excluded = Some(true);
+                v[k].hash = ByteBuf::from(vec![0u8; 32]); // declared excluded by the signed assertion itself
+                variants.push(v);
+                let mut v = clone(&base);
+                v[k].names[0] = "Z".to_string();
+                variants.push(v);
+                if k + 1 < base.len() {
+                    let mut v = clone(&base);
+                    v.swap(k, k + 1);
+                    variants.push(v);
+                }
+                let mut v = clone(&base);
+                let last = v[k].names.len() - 1;
+                v[k].names.remove(last); // a name dropped inside an entry
+                if !v[k].names.is_empty() {
+                    variants.push(v);
+                }
+            }
+            let mut v = clone(&base);
+            v.push(entry(&["Q"], vec![0u8; 32], None));
+            variants.push(v);
+            if source[0].0 == "PNGh" && base.len() > 1 && base[0].names.len() == 1 {
+                let mut v = clone(&base);
+                v.remove(0); // legacy assertion without the PNGh entry
+                variants.push(v);
+            }
+            for signed in variants {
+                if signed.is_empty() {
+                    continue;
+                }
+                evals += 1;
+                let expect = oracle(&signed, source, &data);
+                if expect {
+                    nontrivial += 1;
+                }
+                let bh = BoxHash { boxes: signed };
+                let mut cur = Cursor::new(data.clone());
+                let got = std::panic::catch_unwind(std::panic::AssertUnwindSafe(|| bh.verify_stream_hash_with_progress(&mut cur, None, &FixedMap(source.clone()), &mut |_, _| Ok(()))));
+                let key = match got {
+                    Err(_) => Some("box_hash.panic"),
+                    Ok(r) => {
+                        if r.is_ok() == expect {
+                            None
+                        } else if r.is_ok() {
+                            // which clause of the oracle is violated by the acceptance?
+                            let flat: usize = bh.boxes.iter().map(|b| b.names.len()).sum();
+                            if flat < source.len() { Some("box_hash.accepts_uncovered_source_box") } else { Some("box_hash.accepts_mismatch") }
+                        } else {
+                            Some("box_hash.rejects_valid_assertion")
+                        }
+                    }
+                };
+                if let Some(k) = key {
+                    let c = counts.entry(k.to_string()).or_insert(0);
+                    *c += 1;
+                    if *c <= 3 {
+                        println!("VERIF-B-VIOLATION key={k} input=source={:?} signed_names={:?} excluded={:?}", source, bh.boxes.iter().map(|b| b.names.clone()).collect::<Vec<_>>(), bh.boxes.iter().map(|b| b.excluded).collect::<Vec<_>>());
+                    }
+                }
+            }
+        }
+    }
+    println!("VERIF-B-SAMPLE source=[A@0+2,B@2+2] signed=[[A]] (B uncovered) -> oracle false");
+    println!("VERIF-B-SAMPLE violation classes this run: {:?}", counts);
+    println!("VERIF-B unit=box_hash test=c01_box_hash_verify_matches_oracle evaluations={evals} nontrivial={nontrivial} exhaustive=true domain={} source layouts (1..=4 boxes over {{A,B,C2PA,PNGh}}, optional gap) x 5 groupings x mutations {{none, drop entry, wrong digest, excluded, rename, swap, drop name, extra entry, legacy PNGh}}", layouts.len());
+}
